@@ -142,10 +142,10 @@ def run(ctx):
     for t in texts:
         if not t["ops"]:
             bases[t["base"]] = t["text"]
-    limit = None if thorough else 1200
-    if limit and len(texts) > limit:
+    limit = 250000 if thorough else 1200          # (memory: every text is concretised twice and read four times)
+    ctx.exhaustive = len(texts) <= limit
+    if len(texts) > limit:
         texts = [texts[i] for i in sorted(rng.sample(range(len(texts)), limit))]
-    ctx.exhaustive = limit is None
     events, meta, pairs, pmeta = [], [], [], []
     opts = {"null_policy": "strict", "ihe": False}
     for t in texts:
